@@ -60,6 +60,17 @@ Index gv_e0;     /* ghost entry index  (forall-introduction / -elimination over 
    SAME((S)->rptr1, (S)->rptr) && OFF((S)->rptr1) == OFF((S)->rptr) + ISZ &&                              \
    ((S)->rcnt_ == 0 ? (S)->ncnt_ == 0 : ((S)->rptr[1] == 0 && (S)->rptr[(S)->rcnt_ + 1] == (S)->ncnt_)))
 
+/* the same without the last conjunct (first and last row pointer) */
+#define WF_SHAPE_BUT_LAST(S)                                                                              \
+  ((S)->rows_ >= 0 && (S)->rows_ <= MAXIDX && (S)->cols_ >= 0 && (S)->cols_ <= MAXIDX &&                  \
+   0 <= (S)->rcnt_ && (S)->rcnt_ <= (S)->rows_ && (S)->rnxt_ == (S)->rcnt_ + 1 &&                         \
+   0 <= (S)->ncnt_ && (S)->ncnt_ <= (S)->gv_cap && (S)->gv_cap <= MAXNNZ &&                               \
+   (S)->gv_rsz >= (long)(S)->rows_ + 2 && (S)->gv_rsz <= (long)MAXIDX + 4 &&                              \
+   __CPROVER_rw_ok((S)->nonz, (S)->gv_cap * sizeof(Float)) &&                                             \
+   __CPROVER_rw_ok((S)->cind, (S)->gv_cap * sizeof(Index)) &&                                             \
+   __CPROVER_rw_ok((S)->rptr, (S)->gv_rsz * sizeof(Index)) &&                                             \
+   SAME((S)->rptr1, (S)->rptr) && OFF((S)->rptr1) == OFF((S)->rptr) + ISZ)
+
 /* row fact, for 1 <= r <= rcnt_ : monotone row pointers inside the stored range */
 #define WF_ROW(S, r) (0 <= (S)->rptr[r] && (S)->rptr[r] <= (S)->rptr[(r) + 1] && (S)->rptr[(r) + 1] <= (S)->ncnt_)
 /* entry fact, for 0 <= e < ncnt_ : column index inside [1, cols_] */
@@ -77,6 +88,39 @@ static struct SparseMatrix *gv_new_SparseMatrix3(Index floats, Index rows, Index
   SparseMatrix_ctor3(p, floats, rows, cols);
   return p;
 }
+
+/* lowered `new SparseMatrix(this)` (the private constructor used by transpose) */
+void SparseMatrix_ctorT(struct SparseMatrix *self, const struct SparseMatrix *sm);
+static struct SparseMatrix *gv_new_SparseMatrixT(const struct SparseMatrix *sm)
+{
+  struct SparseMatrix *p = (struct SparseMatrix *)gv_new(sizeof(struct SparseMatrix));
+  SparseMatrix_ctorT(p, sm);
+#ifdef GV_EXCL_TRANSPOSE_UNINIT
+  /* exclusion predicate of the known finding "transpose increments the never-initialised slot trptr[cols+2]":
+     the indeterminate value found there is small enough for ncnt_ increments */
+  __CPROVER_assume(p->rptr[sm->cols_ + 2] <= INT_MAX - MAXNNZ);
+#endif
+  return p;
+}
+
+/* ---- ghost state of the transpose proof (counting sort) ----------------------------------------------------
+   gv_c0   ghost column g in [1, cols_]   (arbitrary: every statement about "column g" is a statement for all columns)
+   gv_seq  ghost array of ncnt_+1 ints, the SUFFIX COUNT of column g:  gv_seq[q] = #{ e >= q : cind[e] == g }.
+           It is a definition (such an array exists and is unique for every cind and g); its defining recurrence
+           SEQ_AX(q) is instantiated at range-checked positions, the base facts gv_seq[ncnt_] == 0 and
+           0 <= gv_seq[0] <= ncnt_ are harness/contract preconditions.
+   gv_ltm, gv_eqm   ghost counters filled by the counting loop: #{cind < g-1}, #{cind == g-1}
+   gv_G0   the indeterminate value found in trptr[cols_+2] (never initialised by the code)                    */
+Index  gv_c0;
+Index *gv_seq;
+Index  gv_ltm, gv_eqm, gv_G0;
+#define SEQ_AX(S, q)                                                                                      \
+  (0 <= gv_seq[(q) + 1] && gv_seq[(q) + 1] <= (S)->ncnt_ - ((q) + 1) &&                                   \
+   gv_seq[q] == gv_seq[(q) + 1] + ((S)->cind[q] == gv_c0 ? 1 : 0))
+#define GSMALL (gv_G0 <= INT_MAX - MAXNNZ)   /* the indeterminate slot value leaves room for ncnt_ increments */
+#define GIN(S) (1 <= gv_c0 && gv_c0 <= (S)->cols_)
+#define SEQ0 (gv_seq[0])
+#define LTG ((long)gv_ltm + gv_eqm)                      /* #{cind < g}: start of row g in the result */
 
 /* harness helper: an arbitrary matrix satisfying WF_SHAPE; row / entry facts are per ghost index */
 static void mk_sm(struct SparseMatrix *S)
@@ -231,6 +275,130 @@ __CPROVER_ensures(__CPROVER_return_value == self->rptr[i + 1] - self->rptr[i] &&
 GV_CANARY("SparseMatrix_size entry");
 //@ end
 
+/* ------------------------------------------------------------------------------------------------ */
+/* SparseMatrix(const SparseMatrix* sm): storage for the transpose (contents not initialised)         */
+//@ contract SparseMatrix_ctorT
+__CPROVER_requires(__CPROVER_rw_ok(self, sizeof(struct SparseMatrix)) && __CPROVER_r_ok(sm, sizeof(struct SparseMatrix)))
+__CPROVER_requires(WF_SHAPE(sm))
+__CPROVER_assigns(__CPROVER_object_whole(self))
+__CPROVER_ensures(self->rows_ == sm->cols_ && self->cols_ == sm->rows_ && self->rcnt_ == sm->cols_ &&
+                  self->rnxt_ == sm->cols_ + 1 && self->ncnt_ == sm->ncnt_)
+__CPROVER_ensures(__CPROVER_rw_ok(self->nonz, sm->ncnt_ * sizeof(Float)) && __CPROVER_rw_ok(self->cind, sm->ncnt_ * sizeof(Index)) &&
+                  __CPROVER_rw_ok(self->rptr, ((long)sm->cols_ + 4) * sizeof(Index)))
+//@ entry SparseMatrix_ctorT
+GV_CANARY("SparseMatrix_ctorT entry");
+self->gv_cap = sm->ncnt_;
+self->gv_rsz = (long)sm->cols_ + 4;
+//@ end
+
+/* ------------------------------------------------------------------------------------------------ */
+/* transpose(): counting sort by column.  Proof in ghost-column form (see the prelude):
+     T1  memory safety for EVERY well-formed, completely filled input (rcnt_ == rows_); uses exactly cind in [1,cols_];
+     T2  the result is well-formed with rows/cols swapped and the same number of entries;
+     T3  row g of the result has exactly as many entries as column g has in the input (= gv_seq[0]) and starts
+         at #{cind < g}.
+   Quantified invariants.  Three facts are needed at a column other than the ghost column g; each is a loop
+   invariant that the same check proves for the arbitrary column g and is instantiated (GV_INST, range-checked) at
+   the column/slot in use:
+     B2(x,i)  0 <= trptr[x+2] <= i                     counting loop, slot about to be incremented  (overflow)
+     K(k)     0 <= trptr[k] <= ncnt_                   prefix-sum loop, the two slots added         (overflow)
+     Q(x)     0 <= trptr[x+1] < ncnt_ when an entry of column x is about to be placed              (bounds)
+   and the prefix-sum loop proves "slot g+1 ends as #{cind < g}" by induction on the column: the statement for
+   column g-1 (slot g holds #{cind < g-1} once passed) is instantiated, the statement for g is the invariant.     */
+//@ contract SparseMatrix_transpose
+__CPROVER_requires(__CPROVER_r_ok(self, sizeof(struct SparseMatrix)))
+__CPROVER_requires(WF_SHAPE(self) && self->rcnt_ == self->rows_)
+__CPROVER_requires(self->cols_ >= 1 ==> GIN(self))
+__CPROVER_requires(__CPROVER_rw_ok(gv_seq, ((long)self->ncnt_ + 1) * sizeof(Index)))
+__CPROVER_requires(gv_seq[self->ncnt_] == 0 && 0 <= gv_seq[0] && gv_seq[0] <= self->ncnt_)
+__CPROVER_requires(!SAME(gv_seq, self) && !SAME(gv_seq, self->nonz) && !SAME(gv_seq, self->cind) && !SAME(gv_seq, self->rptr))
+__CPROVER_assigns(gv_ltm, gv_eqm, gv_G0)
+__CPROVER_ensures(__CPROVER_rw_ok(__CPROVER_return_value, sizeof(struct SparseMatrix)) && !SAME(__CPROVER_return_value, self))
+__CPROVER_ensures(__CPROVER_return_value->rows_ == self->cols_ && __CPROVER_return_value->cols_ == self->rows_ &&
+                  __CPROVER_return_value->rcnt_ == self->cols_ && __CPROVER_return_value->ncnt_ == self->ncnt_)
+/* WF_SHAPE of the result; its last conjunct rptr[rows+1] == ncnt_ is the statement T3 for the last column */
+__CPROVER_ensures(WF_SHAPE_BUT_LAST(__CPROVER_return_value))
+__CPROVER_ensures(self->cols_ == 0 ==> self->ncnt_ == 0)
+__CPROVER_ensures(self->cols_ >= 1 ==> __CPROVER_return_value->rptr[1] == 0)
+__CPROVER_ensures((GIN(self) && gv_c0 == self->cols_) ==> __CPROVER_return_value->rptr[self->cols_ + 1] == self->ncnt_)
+__CPROVER_ensures(GIN(self) ==> WF_ROW(__CPROVER_return_value, gv_c0))
+__CPROVER_ensures(GIN(self) ==> (__CPROVER_return_value->rptr[gv_c0] == LTG &&
+                                __CPROVER_return_value->rptr[gv_c0 + 1] - __CPROVER_return_value->rptr[gv_c0] == gv_seq[0]))
+__CPROVER_ensures(!SAME(__CPROVER_return_value->nonz, self->nonz) && !SAME(__CPROVER_return_value->cind, self->cind) &&
+                  !SAME(__CPROVER_return_value->rptr, self->rptr))
+//@ entry SparseMatrix_transpose
+GV_CANARY("SparseMatrix_transpose entry");
+if (self->ncnt_ > 0) GV_INST(ENT_IN(self, 0), WF_ENT(self, 0));      /* an entry exists ==> cols_ >= 1 */
+
+//@ loop SparseMatrix_transpose 1
+__CPROVER_assigns(i, __CPROVER_object_whole(trptr))
+__CPROVER_loop_invariant(0 <= i && i <= trows_ + 2 && (i > 1 ==> trptr[1] == 0) && (i > 2 ==> trptr[2] == 0) &&
+                         (GIN(self) ==> ((i > gv_c0 + 1 ==> trptr[gv_c0 + 1] == 0) &&
+                                         ((gv_c0 < trows_ && i > gv_c0 + 2) ==> trptr[gv_c0 + 2] == 0))))
+__CPROVER_decreases((long)trows_ + 2 - i)
+
+//@ pre SparseMatrix_transpose 2
+gv_ltm = 0; gv_eqm = 0; gv_G0 = trptr[trows_ + 2];
+//@ loop SparseMatrix_transpose 2
+__CPROVER_assigns(i, __CPROVER_object_whole(trptr), gv_ltm, gv_eqm)
+__CPROVER_loop_invariant(0 <= i && i <= self->ncnt_ && trptr[1] == 0 && (trows_ >= 1 ==> trptr[2] == 0) &&
+                         0 <= gv_ltm && 0 <= gv_eqm &&
+                         (GIN(self) ==> (0 <= gv_seq[i] && gv_seq[i] <= SEQ0 &&
+                                         (gv_c0 < trows_ ? trptr[gv_c0 + 2] == SEQ0 - gv_seq[i]
+                                                         : (GSMALL ==> (long)trptr[gv_c0 + 2] == (long)gv_G0 + SEQ0 - gv_seq[i])) &&
+                                         trptr[gv_c0 + 1] == gv_eqm && (gv_c0 <= 2 ==> gv_ltm == 0) && (gv_c0 == 1 ==> gv_eqm == 0) &&
+                                         LTG + (SEQ0 - gv_seq[i]) <= i && (gv_c0 == trows_ ==> LTG + (SEQ0 - gv_seq[i]) == i))))
+__CPROVER_decreases((long)self->ncnt_ - i)
+//@ head SparseMatrix_transpose 2
+GV_INST(ENT_IN(self, i), WF_ENT(self, i));
+if (GIN(self)) GV_INST(ENT_IN(self, i), SEQ_AX(self, i));
+/* quantified invariant B2 at the slot about to be incremented (proved above for slots g+1 and g+2) */
+if (!(GIN(self) && (self->cind[i] == gv_c0 || self->cind[i] == gv_c0 - 1))) {
+  if (self->cind[i] < trows_) GV_INST(1 <= self->cind[i] && self->cind[i] < trows_, 0 <= trptr[self->cind[i] + 2] && trptr[self->cind[i] + 2] <= i);
+  else GV_INST(self->cind[i] == trows_, GSMALL ==> ((long)gv_G0 <= trptr[trows_ + 2] && trptr[trows_ + 2] <= (long)gv_G0 + i));
+}
+//@ tail SparseMatrix_transpose 2
+if (GIN(self)) { if (self->cind[i] == gv_c0 - 1) gv_eqm++; else if (self->cind[i] < gv_c0 - 1) gv_ltm++; }
+
+//@ loop SparseMatrix_transpose 3
+__CPROVER_assigns(i, __CPROVER_object_whole(trptr))
+__CPROVER_loop_invariant(3 <= i && i <= GV_MAX(3, trows_ + 2) && trptr[1] == 0 && (trows_ >= 1 ==> trptr[2] == 0) &&
+                         (GIN(self) ==> (trptr[gv_c0 + 1] == (gv_c0 + 1 < i ? LTG : gv_eqm) &&
+                                         (gv_c0 < trows_ ==> trptr[gv_c0 + 2] == (gv_c0 + 2 < i ? LTG + SEQ0 : SEQ0)))))
+__CPROVER_decreases((long)trows_ + 2 - i)
+//@ head SparseMatrix_transpose 3
+/* quantified invariant K at the two slots added */
+GV_INST(3 <= i && i <= trows_ + 1, 0 <= trptr[i] && trptr[i] <= self->ncnt_ && 0 <= trptr[i - 1] && trptr[i - 1] <= self->ncnt_);
+/* induction on the column: the statement of this loop's invariant for column g-1 (its slot g is final once passed) */
+if (GIN(self) && gv_c0 >= 3) GV_INST(3 <= gv_c0 && gv_c0 <= trows_, gv_c0 < i ==> trptr[gv_c0] == gv_ltm);
+
+//@ loop SparseMatrix_transpose 4
+__CPROVER_assigns(r, irb, ire, k, j, __CPROVER_object_whole(trptr), __CPROVER_object_whole(tcind), __CPROVER_object_whole(tnonz))
+__CPROVER_loop_invariant(1 <= r && r <= self->rows_ + 1 && trptr[1] == 0 &&
+                         (self->rows_ >= 1 ==> (ire == self->rptr[r] && 0 <= ire && ire <= self->ncnt_)) &&
+                         (GIN(self) ==> (0 <= gv_seq[self->rows_ >= 1 ? ire : 0] && gv_seq[self->rows_ >= 1 ? ire : 0] <= SEQ0 &&
+                                         trptr[gv_c0 + 1] == LTG + SEQ0 - gv_seq[self->rows_ >= 1 ? ire : 0])))
+__CPROVER_decreases((long)self->rows_ + 1 - r)
+//@ head SparseMatrix_transpose 4
+GV_INST(ROW_IN(self, r), WF_ROW(self, r));
+
+//@ loop SparseMatrix_transpose 5
+__CPROVER_assigns(irb, k, j, __CPROVER_object_whole(trptr), __CPROVER_object_whole(tcind), __CPROVER_object_whole(tnonz))
+__CPROVER_loop_invariant(self->rptr[r] <= irb && irb <= ire && trptr[1] == 0 &&
+                         (GIN(self) ==> (0 <= gv_seq[irb] && gv_seq[irb] <= SEQ0 && trptr[gv_c0 + 1] == LTG + SEQ0 - gv_seq[irb])))
+__CPROVER_decreases((long)ire - irb)
+//@ head SparseMatrix_transpose 5
+GV_INST(ENT_IN(self, irb), WF_ENT(self, irb));
+if (GIN(self)) GV_INST(ENT_IN(self, irb), SEQ_AX(self, irb));
+/* quantified invariant Q at the column of the entry being placed (proved for column g by the bounds checks below) */
+if (!(GIN(self) && self->cind[irb] == gv_c0))
+  GV_INST(1 <= self->cind[irb] && self->cind[irb] <= trows_, 0 <= trptr[self->cind[irb] + 1] && trptr[self->cind[irb] + 1] < self->ncnt_);
+
+//@ post SparseMatrix_transpose 4
+/* T3 for column g-1 (start of row g = end of row g-1), proved by this same check for the arbitrary column */
+if (GIN(self) && gv_c0 >= 2) GV_INST(2 <= gv_c0 && gv_c0 <= trows_, trptr[gv_c0] == LTG);
+//@ end
+
 //@ harness
 void h_ctor3(void)
 {
@@ -288,6 +456,21 @@ void h_replicate0(void)
   gv_r0 = r0; gv_e0 = e0;
   struct SparseMatrix *R = SparseMatrix_replicate0(&S);
   GV_CANARY("h_replicate0 end");
+}
+
+void h_transpose(void)
+{
+  struct SparseMatrix S;
+  mk_sm(&S);
+  Index c0;
+  __CPROVER_assume(S.rcnt_ == S.rows_);                 /* completely filled */
+  gv_c0 = c0;
+  __CPROVER_assume(S.cols_ >= 1 ==> GIN(&S));
+  gv_seq = GV_ALLOC(Index, (long)S.ncnt_ + 1);          /* the ghost suffix-count array of column gv_c0 */
+  __CPROVER_assume(gv_seq);
+  __CPROVER_assume(gv_seq[S.ncnt_] == 0 && 0 <= gv_seq[0] && gv_seq[0] <= S.ncnt_);
+  struct SparseMatrix *T = SparseMatrix_transpose(&S);
+  GV_CANARY("h_transpose end");
 }
 
 void h_access(void)
